@@ -147,12 +147,15 @@ theorem leaf_hmac (P : Prims) (h : String) (s k : Json) (f : Bs → Bool) (msg :
 
 /-- ECDSA: the key passed `EC_KEY_check_key`, the signature is r‖s of exactly twice the
     curve's width, and the primitive accepts them over the digest of the input -/
-theorem leaf_ecdsa (P : Prims) (h : String) (s k : Json) (f : Bs → Bool) (msg : Bs)
-    (hl : ecdsaVer P h s k = some f) (hok : f msg = true) :
+theorem leaf_ecdsa (P : Prims) (crv h : String) (s k : Json) (f : Bs → Bool) (msg : Bs)
+    (hl : ecdsaVer P crv h s k = some f) (hok : f msg = true) :
     ∃ hfun key sv, P.hash h = some hfun ∧ ecKeyOf P k = some key ∧ sigBytes s = some sv ∧
       sv.length = 2 * key.len ∧
       P.ecdsaVerify key.crv key.x key.y (hfun msg) (sv.take key.len) (sv.drop key.len) = true := by
-  simp only [ecdsaVer, Option.bind_eq_some_iff, Option.map_eq_some_iff] at hl
+  simp only [ecdsaVer] at hl
+  split at hl
+  · simp at hl
+  simp only [Option.bind_eq_some_iff, Option.map_eq_some_iff] at hl
   obtain ⟨hfun, hh, key, hk, rfl⟩ := hl
   cases hs : sigBytes s with
   | none => simp [hs] at hok
@@ -211,7 +214,7 @@ theorem leaf_rsa (P : Prims) (h : String) (pss : Bool) (s k : Json) (f : Bs → 
 /-- the leaf of a registered name is the leaf of its family -/
 theorem verLeaf_family (P : Prims) (name : String) (s k : Json) (f : Bs → Bool) (h : verLeaf P name s k = some f) :
     (∃ hs, family name = some (.hmac hs) ∧ hmacVer P hs s k = some f) ∨
-    (∃ hs, family name = some (.ecdsa hs) ∧ ecdsaVer P hs s k = some f) ∨
+    (∃ crv hs, family name = some (.ecdsa crv hs) ∧ ecdsaVer P crv hs s k = some f) ∨
     (∃ pss hs, family name = some (.rsa pss hs) ∧ rsaVer P pss hs s k = some f) := by
   simp only [verLeaf] at h
   cases hf : family name with
@@ -219,7 +222,7 @@ theorem verLeaf_family (P : Prims) (name : String) (s k : Json) (f : Bs → Bool
   | some fam =>
     cases fam with
     | hmac hs => simp only [hf] at h; exact Or.inl ⟨hs, rfl, h⟩
-    | ecdsa hs => simp only [hf] at h; exact Or.inr (Or.inl ⟨hs, rfl, h⟩)
+    | ecdsa crv hs => simp only [hf] at h; exact Or.inr (Or.inl ⟨crv, hs, rfl, h⟩)
     | rsa pss hs => simp only [hf] at h; exact Or.inr (Or.inr ⟨pss, hs, rfl, h⟩)
 
 /-- every registered signature algorithm belongs to one of the three families the
@@ -233,10 +236,13 @@ theorem sign_algs_permissions : ∀ a ∈ signAlgs, a.p1 = some "sign" ∧ a.p2 
 /-- an absent signature value never verifies, for any algorithm -/
 theorem absent_signature_fails (P : Prims) (name : String) (s k : Json) (f : Bs → Bool) (msg : Bs)
     (hl : verLeaf P name s k = some f) (hs : sigBytes s = none) : f msg = false := by
-  rcases verLeaf_family P name s k f hl with ⟨h, _, hv⟩ | ⟨h, _, hv⟩ | ⟨pss, h, _, hv⟩
+  rcases verLeaf_family P name s k f hl with ⟨h, _, hv⟩ | ⟨crv, h, _, hv⟩ | ⟨pss, h, _, hv⟩
   · simp only [hmacVer, Option.map_eq_some_iff] at hv
     obtain ⟨_, _, rfl⟩ := hv; simp [hs]
-  · simp only [ecdsaVer, Option.bind_eq_some_iff, Option.map_eq_some_iff] at hv
+  · simp only [ecdsaVer] at hv
+    split at hv
+    · simp at hv
+    simp only [Option.bind_eq_some_iff, Option.map_eq_some_iff] at hv
     obtain ⟨_, _, _, _, rfl⟩ := hv; simp [hs]
   · simp only [rsaVer, Option.map_eq_some_iff] at hv
     obtain ⟨_, _, rfl⟩ := hv; simp [hs]
